@@ -20,6 +20,10 @@ Inductive bcase :=
            (bsizes : list (Z * Z * Z)) (* from, to, BlindedEdge.IntermediatePayloadSize *)
            (last_size : Z)
            (hopfees : list Z) (totfees recv : Z)
+           (enc_est enc_real total custom_len : Z)  (* encrypted-data lengths: largest last hop of
+                                                       the set / the recipient's; finalHop.totalAmt;
+                                                       custom record bytes (-1 none) *)
+           (session : bool)            (* RestrictParams without the path set: 13 skipped *)
 | CBlindedNo (en : env) (nums : Z) (ps : list bpay) (obs_add : list edge) (dst : Z).
 
 Fixpoint lookup_bs (f t : Z) (l : list (Z * Z * Z)) : option Z :=
@@ -55,11 +59,13 @@ Definition no_last_hop (rs : restr) : restr :=
      different totals
    10 ToRouteHints differs from the model (incl. HasMaxHTLC of the aggregate edge)
    11 target / final CLTV delta of the path set differ from the model
-   12 last-hop restriction not met by the search path *)
+   12 last-hop restriction not met by the search path
+   13 lastHopPayloadSize / the real final-hop payload differ from the size model
+      (final_hop_est / final_hop_real) *)
 Definition check_bcase (c : bcase) : list N :=
   match c with
   | CBlinded gpub en rs amt src nums ps obs_add dst path r sizes bsizes last_size
-             hopfees totfees recv =>
+             hopfees totfees recv enc_est enc_real total custom_len session =>
     let g := with_additional gpub (self en) obs_add in
     flag 10 (list_eqb edge_eqb (blinded_additional nums ps) obs_add) ++
     flag 11 ((dst =? set_target nums ps) && (final_delta en =? set_final_delta ps)) ++
@@ -80,7 +86,12 @@ Definition check_bcase (c : bcase) : list N :=
             | None => false
             | Some n => (n_node n =? src) && (n_net n =? r_amt r) && (n_cltv n =? r_tl r)
             end) ++
-    flag 12 (last_hop_ok rs path)
+    flag 12 (last_hop_ok rs path) ++
+    flag 13 (session ||
+             let single := match find is_single ps with Some _ => true | None => false end in
+             let tl := height en + final_delta en in
+             (final_hop_est amt tl enc_est single =? last_size) &&
+             (final_hop_real amt tl enc_real single total custom_len =? last sizes 0))
   | CBlindedNo en nums ps obs_add dst =>
     flag 10 (list_eqb edge_eqb (blinded_additional nums ps) obs_add) ++
     flag 11 ((dst =? set_target nums ps) && (final_delta en =? set_final_delta ps))
